@@ -51,6 +51,7 @@ def gen(rng, tier):
         'served': served,
         'disc_handler': rng.random() < 0.9,
         'ping': rng.random() < 0.25,
+        'send_pauses': rng.random() < 0.5,
     }
     npeers = rng.randrange(1, 4)
     ops = []
@@ -73,11 +74,23 @@ def gen(rng, tier):
             ops.append(['open', p])
         elif k < 0.90:
             kinds = ['cdisc', 'sdisc', 'sever', 'sdisc_other', 'cdisc_other',
-                     'sdisc', 'cdisc']
+                     'sdisc', 'cdisc', 'cdisc_reconnect']
             causes = []
             for _ in range(rng.randrange(2, 4)):
                 causes.append([rng.choice(kinds),
                                rng.randrange(len(OFFSETS))])
+            if any(c[0] == 'cdisc_reconnect' for c in causes):
+                # the other causes must be aimed at the old session id only
+                # (a later client DISCONNECT or a transport loss would
+                # legitimately end the re-connected session as well)
+                seen = False
+                for c in causes:
+                    if c[0] == 'cdisc_reconnect':
+                        if seen:
+                            c[0] = 'sdisc'
+                        seen = True
+                    elif c[0] in ('cdisc', 'sever'):
+                        c[0] = 'sdisc'
             ops.append(['race', p, ns, causes])
             if any(c[0] == 'sever' for c in causes):
                 ops.append(['open', p])
@@ -98,7 +111,9 @@ def run(case):
     cfg = case['cfg']
     w = make_world(cfg['mode'], seed=case['seed'],
                    choices_replay=case.get('choices'),
-                   lat=LATS[cfg['lat']])
+                   lat=LATS[cfg['lat']],
+                   send_pauses=(0.0, 0.0, 0.001, 0.004)
+                   if cfg.get('send_pauses') else None)
     try:
         return _run(case, cfg, w)
     finally:
@@ -439,7 +454,9 @@ def _run(case, cfg, w):
             others = sorted(n for n in live[p] if n != ns)
             reasons = {}
             ended = {}      # sid -> reasons
+            reconnects = []
             peer = peers[p]
+            new_rx(p)
             if w.mode != 'async':
                 # threaded server: sequential executions only
                 causes = causes[:1]
@@ -458,6 +475,16 @@ def _run(case, cfg, w):
                     w.after(off, lambda sid=sid, ns=ns: w.api(
                         's', 'disconnect', sid, namespace=ns))
                     add(sid, {'server disconnect'})
+                elif kind == 'cdisc_reconnect':
+                    # the client leaves the namespace and asks for it again
+                    # on the same transport, in the middle of the race
+                    w.after(off, peer.send_pkt, sio.DISCONNECT, ns, None,
+                            None)
+                    behaviours[(peer.conn.cid, ns)] = 'accept'
+                    w.after(off + OFFSETS[(offi + 3) % len(OFFSETS)],
+                            peer.send_pkt, sio.CONNECT, ns, None, None)
+                    add(sid, {'client disconnect'})
+                    reconnects.append(ns)
                 elif kind == 'sever':
                     w.after(off, peer.sever, 0.0)
                     for n2, s2 in live[p].items():
@@ -482,6 +509,22 @@ def _run(case, cfg, w):
                 live[p].pop(c['ns'], None)
                 end_conn(s2, rs)
                 check_ended(c, where)
+            # a CONNECT sent during the race may have been accepted: that is
+            # a new connection nobody has asked to end
+            if reconnects and peer_alive(p):
+                for g in new_rx(p):
+                    if g.type == sio.CONNECT and g.nsp in reconnects:
+                        sid2 = (g.data or {}).get('sid')
+                        if sid2 in all_sids:
+                            v.add('sid_not_fresh', '%s: %r' % (where, sid2))
+                        all_sids.add(sid2)
+                        live[p][g.nsp] = sid2
+                        c2 = {'sid': sid2, 'p': p, 'ns': g.nsp,
+                              'cid': peer.conn.cid, 'ended': False,
+                              'peer': peer}
+                        conns.append(c2)
+                        by_sid[sid2] = c2
+                        w.rec.count('race.reconnect_accepted')
             for s2 in ended:
                 probe_dead(by_sid[s2], where)
             probe_alive(p, where)
